@@ -361,6 +361,7 @@ def lemma_pointwise(a, b, q):
     return plain(a) == plain(b) and total(a) == total(b)
 
 
+_FORMAT_WIDTHS = (tuple(range(0, 13)) + (25, 40, 100)) if _os.environ.get('VERIF_TIER') == 'thorough' else (0, 1, 2, 7, 10, 25)
 _FORMAT_SPEC = T.derived('fill + align + str(width) + kind',
                          lambda I, a: I.eval(_parse('fill + align + str(width) + kind'), _Env(dict(a), pyglobals={'str': str})))
 _FORMAT_SPEC.native = lambda a: a['fill'] + a['align'] + str(a['width']) + a['kind']
@@ -463,7 +464,9 @@ UNBOUNDED_CONTRACTS = [
     Contract(M, 'CHText.__init__', name='CHText.__init__/any_length', prop=PROP, spec_globals=G, level='top',
              params={'self': T.obj('ak.color:CHText'),
                      'parts': T.one_of(T.tuple(), T.tuple(ANYTEXT()), T.tuple(T.str, ANYTEXT()), T.tuple(ANYTEXT(), CHUNK()),
-                                       T.tuple(ANYTEXT(), ANYTEXT()), T.tuple(CHUNK(), T.str, ANYTEXT())),
+                                       T.tuple(ANYTEXT(), ANYTEXT()), T.tuple(CHUNK(), T.str, ANYTEXT()),
+                                       *([T.tuple(ANYTEXT(), T.str, ANYTEXT(), CHUNK())]
+                                         if _os.environ.get('VERIF_TIER') == 'thorough' else [])),
                      'p': T.int},
              requires=[],
              ensures={
@@ -512,7 +515,9 @@ UNBOUNDED_CONTRACTS = [
              symlist_models=COLOR_MODELS, raises={}, modifies=[]),
     Contract(M, 'CHText.join', name='CHText.join/any_length', prop=PROP, spec_globals=G, level='top',
              params={'self': T.one_of(ANYTEXT()),
-                     'iterable': T.one_of(T.list(), T.list(ANYTEXT()), T.list(T.str, ANYTEXT()), T.list(ANYTEXT(), CHUNK(), T.str)),
+                     'iterable': T.one_of(T.list(), T.list(ANYTEXT()), T.list(T.str, ANYTEXT()), T.list(ANYTEXT(), CHUNK(), T.str),
+                                          *([T.list(T.str, ANYTEXT(), CHUNK(), ANYTEXT())]
+                                            if _os.environ.get('VERIF_TIER') == 'thorough' else [])),
                      'p': T.int},
              requires=[],
              ensures={
@@ -609,7 +614,7 @@ UNBOUNDED_CONTRACTS = [
              params={'self': T.one_of(ANYTEXT()),
                      'fill': T.one_of(T.const(''), T.str_len(1)),
                      'align': T.one_of(T.const(''), T.const('<'), T.const('>'), T.const('^')),
-                     'width': T.one_of(T.const(''), *[T.const(w) for w in (0, 1, 2, 7, 10, 25)]),
+                     'width': T.one_of(T.const(''), *[T.const(w) for w in _FORMAT_WIDTHS]),
                      'kind': T.one_of(T.const(''), T.const('s')),
                      'format_spec': _FORMAT_SPEC},
              requires=["wf_any(self)", "fill == '' or align != ''"],
@@ -829,9 +834,9 @@ def total_runs(rs):
 
 CHText_cls = akc.CHText
 
-BOUNDED_SYMBOLIC = {'CHText.__format__/any_length': "widths from {none, 0, 1, 2, 7, 10, 25}; any fill character, every alignment, text with any number of chunks",
-                    'CHText.join/any_length': "at most 3 joined items (str / chunk / text); every text has any number of chunks",
-                    'CHText.__init__/any_length': "at most 3 constructor arguments (str / chunk / text); every text has any number of chunks",
+BOUNDED_SYMBOLIC = {'CHText.__format__/any_length': f"widths from {{none, {', '.join(map(str, _FORMAT_WIDTHS))}}}; any fill character, every alignment, text with any number of chunks",
+                    'CHText.join/any_length': "at most 3 (thorough: 4) joined items (str / chunk / text); every text has any number of chunks",
+                    'CHText.__init__/any_length': "at most 3 (thorough: 4) constructor arguments (str / chunk / text); every text has any number of chunks",
                     'CHText.join': 3, 'CHText.__init__': 2, 'CHText._append_chunk': 3, 'CHText.__iadd__': 2, 'CHText.__add__': 2, 'CHText.__radd__': 2,
                     'CHText.__eq__/text': 2, 'CHText.__eq__/str': 3, 'CHText.fixed_len': 2, 'CHText._get_chunk_pos': 3, 'CHText.__getitem__/index': 3, 'CHText.__getitem__/slice': 3}
 _IADD_ANY = ['CHText.__iadd__/chunk/any_length', 'CHText.__iadd__/str/any_length', 'CHText.__iadd__/text/any_length']
